@@ -372,8 +372,17 @@ func (c *Ctx) perIteration(w *walkInfo) {
 				if !ok || P.moduleStruct(deref(fa.X.Type())) != k.T || fa.Field != k.Index {
 					return
 				}
-				// stores that build a composite literal are initialisation
-				if a, ok := fa.X.(*ssa.Alloc); ok && a.Comment == "complit" {
+				// an object allocated inside the iteration (fresh per declaration / file) cannot carry state over
+				if a, ok := fa.X.(*ssa.Alloc); ok {
+					fresh := fn.Synthetic == "range-over-func yield" || (loop != nil && fn == inspectFn && loop[a.Block()]) || loopOf(a.Block()) != nil
+					if fresh || a.Comment == "complit" {
+						return
+					}
+				}
+				if P.RootsAll(fa.X, func(r ssa.Value) bool {
+					a, ok := r.(*ssa.Alloc)
+					return ok && (a.Parent().Synthetic == "range-over-func yield" || loopOf(a.Block()) != nil)
+				}) {
 					return
 				}
 				perIter := fn.Synthetic == "range-over-func yield" || (fn == inspectFn && loop != nil && loop[b]) || loopOf(b) != nil
